@@ -14,21 +14,23 @@ from ..oracles import CONFIGS, mann_whitney
 
 def step_area(pos, neg, ep, en, sc, lo: F, up: F) -> F:
     """Exact area under the empirical step ROC (x=FPR, y=TPR) over [lo, up]; requires that no
-    value is shared between the classes."""
+    value is shared between the classes.  Only the scored negatives are visited; the stretch of
+    the FPR axis that belongs to the (never accepted) easy negatives is one flat piece."""
     negs = sorted(neg, reverse=(sc == "pos"))  # most positive-looking negative first
     Mall, Pall = len(neg) + en, len(pos) + ep
     area = F(0)
-    for k in range(Mall):
+    for k in range(len(negs)):
         a, b = F(k, Mall), F(k + 1, Mall)
         l, u = max(a, lo), min(b, up)
         if u <= l:
             continue
-        if k < len(negs):
-            v = negs[k]
-            cnt = sum(1 for p in pos if (p > v if sc == "pos" else p < v)) + ep
-        else:
-            cnt = Pall  # beyond the scored negatives every positive is accepted
+        v = negs[k]
+        cnt = sum(1 for p in pos if (p > v if sc == "pos" else p < v)) + ep
         area += (u - l) * F(cnt, Pall)
+    # beyond the scored negatives every positive is accepted
+    l, u = max(F(len(negs), Mall), lo), min(F(1), up)
+    if u > l:
+        area += (u - l)
     return area
 
 
@@ -104,7 +106,15 @@ def _partial_cases(draw):
                          st.sampled_from([0.0, 1.0, 0.5, 1 / 3, 0.1]))
 
     pts = sorted(draw(st.lists(lim(), min_size=3, max_size=3)))
-    return dict(s=dict(pos=pos, neg=neg, ep=ep, en=en, mode="float",
+    stratum = draw(st.sampled_from(["general", "general", "general", "huge-easy"]))
+    if stratum == "huge-easy":
+        # very many easy negatives: the whole scored part of the curve lives within m/Nn of one end of
+        # the FPR axis; limits at FPR values the curve attains (areas ~1e-15 and smaller, compared
+        # with a relative tolerance)
+        en = draw(st.sampled_from([10**16, 2**53 + 12345, 10**15 + 7]))
+        Nn = m + en
+        pts = sorted(draw(st.lists(st.integers(0, m).map(lambda k: k / Nn), min_size=3, max_size=3)))
+    return dict(stratum=stratum, s=dict(pos=pos, neg=neg, ep=ep, en=en, mode="float",
                        container=draw(st.sampled_from(["f64", "f64", "list", "f128", "f32"]))), lims=pts,
                 lim_kind=draw(st.sampled_from(["float", "float", "int", "np"])))
 
@@ -114,6 +124,7 @@ def check_partial(case):
     pos, neg, ep, en = s["pos"], s["neg"], s["ep"], s["en"]
     lo, mid, up = case["lims"]
     inside = False
+    stratum = case.get("stratum", "general")
     kind = case.get("lim_kind", "float")
     if s.get("container") == "f32" and any(float(np.float32(v)) != v for v in pos + neg):
         s = dict(s, container="f64")
@@ -134,16 +145,20 @@ def check_partial(case):
             got = float(obj.auc(L(a), L(b)))
             ref = float(step_area(pos, neg, ep, en, sc, F(a), F(b)))
             areas[(a, b)] = got
-            require(abs(got - ref) <= 1e-9, "pauc:step-area",
+            tol = 1e-9 if stratum == "general" else 1e-9 * ref + 1e-24  # tiny areas: relative
+            require(abs(got - ref) <= tol, "pauc:step-area",
                     lambda: f"{ctx}: auc({a!r},{b!r})={got!r}, exact step area {ref!r}")
             require(got <= (b - a) + 1e-12, "pauc:exceeds-width", f"{ctx}: {got!r} > {b - a!r}")
+            if stratum != "general":
+                continue  # the mirrored axes (1 - x) cannot resolve windows of 1e-13 or rates of 1e-16
             yc = float(obj.auc(L(a), L(b), y_axis="fnr"))
             require(abs(yc - ((b - a) - ref)) <= 1e-9, "pauc:y-complement",
                     lambda: f"{ctx}: auc({a!r},{b!r},y=fnr)={yc!r} expected {(b - a) - ref!r}")
             xc = float(obj.auc(L(1 - b), L(1 - a), x_axis="tnr"))
             require(abs(xc - ref) <= 1e-9, "pauc:x-complement",
                     lambda: f"{ctx}: auc({1 - b!r},{1 - a!r},x=tnr)={xc!r} expected {ref!r}")
-        require(abs(areas[(lo, mid)] + areas[(mid, up)] - areas[(lo, up)]) <= 1e-9,
+        require(abs(areas[(lo, mid)] + areas[(mid, up)] - areas[(lo, up)])
+                <= (1e-9 if stratum == "general" else 1e-9 * areas[(lo, up)] + 1e-24),
                 "pauc:additivity", lambda: f"{ctx}: {areas}")
         full = float(step_area(pos, neg, ep, en, sc, F(0), F(1)))
         sw = float(obj.auc(x_axis="tpr", y_axis="fpr"))
@@ -152,7 +167,9 @@ def check_partial(case):
         inside = True
     lo_p, hi_p, lo_n, hi_n = min(pos), max(pos), min(neg), max(neg)
     overlap = not (lo_p > hi_n or hi_p < lo_n)
-    return dict(nontrivial=overlap and inside, labels=(["easy"] if ep or en else []) + [f"limits:{kind}", f"container:{s.get('container')}"])
+    if stratum != "general":
+        inside = True
+    return dict(nontrivial=overlap and inside, labels=(["easy"] if ep or en else []) + [f"stratum:{stratum}", f"limits:{kind}", f"container:{s.get('container')}"])
 
 
 PROP = Prop(
